@@ -838,7 +838,60 @@ def c12_19(ctx):
 
 
 
+def c12_20(ctx):
+    """compact-size integers and strings on every width boundary: canonical form written, inverse read (rules/bitcodecs.py varint_cells)"""
+    from rules.bitcodecs import try_cells, varint_cells
+    r = try_cells(varint_cells, ctx)
+    if r is None:
+        mod, fn = rl.get(ctx, "helper:encode_varint")
+        return [ctx.err("helper:encode_varint", "compact-size codec outside the evaluator's subset", fn, mod)]
+    return r
+
+
+
+def c12_21(ctx):
+    """ControlBlock.__eq__ evaluated: a control block built for an internal key with odd Y and the one parsed back from its serialisation
+    (whose key is the even-Y lift of the same x) are equal -- a control block carries the x coordinate only; blocks that differ in leaf
+    version, parity bit, x coordinate, or one path hash are unequal"""
+    from sa.cells import Evaluator, Obj, Raised, Undecided
+    spec = "taproot:ControlBlock.__eq__"
+    mod, fn = rl.get(ctx, spec)
+    P_ = 2 ** 256 - 2 ** 32 - 977
+    X, Y = 0x79BE667EF9DCBBAC55A06295CE870B07029BFCDB2DCE28D959F2815B16F81798, 0x483ADA7726A3C4655DA4FBFC0E1108A8FD17B448A68554199C47D08FFB10D4B8
+
+    def point(x, y):
+        return Obj("pecc", "S256Point", {"x": Obj("pecc", "S256Field", {"num": x, "prime": P_}), "y": Obj("pecc", "S256Field", {"num": y, "prime": P_}), "parity": y & 1,
+                                         "a": Obj("pecc", "S256Field", {"num": 0, "prime": P_}), "b": Obj("pecc", "S256Field", {"num": 7, "prime": P_})})
+
+    def cb(ver=0xC0, par=1, x=X, y=Y, hashes=(b"\x01" * 32, b"\x02" * 32)):
+        return Obj("taproot", "ControlBlock", {"tapleaf_version": ver, "parity": par, "internal_pubkey": point(x, y), "hashes": list(hashes)})
+    odd_y = Y if Y & 1 else P_ - Y
+    even_y = P_ - odd_y
+    cases = [("built for the odd-Y internal key vs parsed back (even-Y lift of the same x)", cb(y=odd_y), cb(y=even_y), True),
+             ("two copies", cb(), cb(), True),
+             ("other leaf version", cb(), cb(ver=0xC2), False), ("other parity bit", cb(par=1), cb(par=0), False),
+             ("other internal key x", cb(), cb(x=(X + 1) % P_), False), ("one path hash differs", cb(), cb(hashes=(b"\x01" * 32, b"\x03" * 32)), False),
+             ("one path hash fewer", cb(), cb(hashes=(b"\x01" * 32,)), False)]
+    try:
+        for label, a, b, want in cases:
+            ctx.count("cells")
+            try:
+                r = Evaluator(ctx.repo, max_steps=1000000).call(spec, [b], self_obj=a)
+            except Raised as x:
+                return [ctx.bad(spec, "comparing control blocks (%s) raises %s" % (label, x.name), fn, mod, key="cb-equality")]
+            if bool(r) != want:
+                return [ctx.bad(spec, "control blocks, %s: compared %s" % (label, "unequal although they serialise to the same bytes -- the control block the library builds does not "
+                                                                           "compare equal to its own parsed serialisation" if want else "equal although their bytes differ"), fn, mod,
+                                key="cb-equality")]
+    except Undecided as u:
+        return [ctx.err(spec, "ControlBlock.__eq__ not evaluable: %s" % u, fn, mod)]
+    return [ctx.ok(spec, "equal exactly when leaf version, parity bit, x coordinate of the internal key and the path agree (%d cells)" % len(cases), fn, mod, key="cb-equality")]
+
+
+
 OBLIGATIONS = [
+    ("C12.21", "CELLS control block equality", c12_21),
+    ("C12.20", "CELLS compact size (shared)", c12_20),
     ("C12.17", "CELLS control block length", c12_17),
     ("C12.18", "CELLS merkle order", c12_18),
     ("C12.19", "CELLS leaf of any size", c12_19),
